@@ -264,9 +264,10 @@ func run(job *Job) {
 			}
 			s.compare(i, "working tree after set", &VersionExp{Pairs: st.Work}, false)
 		case "rm":
+			// Upd carries the specification's answer: was the key there
 			_, removed, err := s.tree.Remove(unhex(st.K))
-			if err != nil || !removed {
-				mism(job, i, "Remove(%s) of a present key = removed %v (%v)", st.K, removed, err)
+			if err != nil || removed != st.Upd {
+				mism(job, i, "Remove(%s) = removed %v (%v), specification: %v", st.K, removed, err, st.Upd)
 			}
 			s.compare(i, "working tree after remove", &VersionExp{Pairs: st.Work}, false)
 		case "save":
